@@ -245,6 +245,13 @@ func (eval Evaluator[T]) EvaluateMonomial(a, b, xpow *rlwe.Ciphertext) (err erro
 		return fmt.Errorf("evalMonomial: %w", err)
 	}
 
+	// A power left non-relinearized by an earlier lazy evaluation on the same power basis
+	if xpow.Degree() == 2 {
+		if err = eval.Relinearize(xpow, xpow); err != nil {
+			return fmt.Errorf("evalMonomial: %w", err)
+		}
+	}
+
 	if err = eval.Mul(b, xpow, b); err != nil {
 		return fmt.Errorf("evalMonomial: %w", err)
 	}
